@@ -39,7 +39,7 @@ Init == /\ \E S \in {T \in SUBSET Key : Cardinality(T) <= MaxRecords} :
         /\ bad = {} /\ n = 0
 
 Base(ev) == [ev |-> ev, s |-> st, r |-> 0, g |-> g, g2 |-> 0, rb |-> 0, k |-> 0, v |-> 0, i |-> 0, ni |-> 0, rg |-> 0, thr |-> Threshold,
-             has |-> {}, addrs |-> {}, tok |-> 0]
+             has |-> {}, addrs |-> {}, tok |-> 0, tks |-> {}]
 
 Step(x0) ==
     \E r \in ModelResults(x0) :
@@ -50,7 +50,7 @@ Step(x0) ==
        /\ g' = g2
        /\ bad' = FalsifiedBy(x)
        /\ n' = n + 1
-       /\ hist' = IF Record THEN Append(hist, [ev |-> x.ev, k |-> x.k, v |-> x.v, i |-> x.i, ni |-> x.ni, n |-> IF x.ev = "HandleNote" THEN st.notes[x.ni] ELSE 0, rg |-> x.rg,
+       /\ hist' = IF Record THEN Append(hist, [ev |-> x.ev, k |-> x.k, v |-> x.v, i |-> x.i, ni |-> x.ni, n |-> IF x.ev = "HandleNote" THEN st.notes[x.ni] ELSE 0, rg |-> x.rg, tks |-> x.tks,
                                                t |-> IF x.ev \in {"RunTask", "FailTask"} THEN st.tasks[x.i] ELSE 0,
                                                res |-> r.res, out |-> r.out, idx |-> r.st.idx, rb |-> x.rb])
                   ELSE hist
@@ -67,10 +67,10 @@ DoSetRange == \E r \in 1..(NK + 1) : st.range # r /\ Step([Base("SetRange") EXCE
 DoCleanup == Step(Base("Cleanup"))
 DoPayment == st.pay < 2 /\ Step(Base("PaymentReceived"))
 DoQuote == Record /\ \E k \in Key : Step([Base("Quote") EXCEPT !.k = k])
-\* crash at any point; the write body in progress (any runnable W) may leave a torn file
+\* crash at any point; the write bodies in progress (any set of runnable W, one per file) may each leave a torn file
 DoRestart == /\ WithCrash /\ ~g.restarted /\ n >= 2
-             /\ \E tk \in {0} \cup {st.tasks[i].k : i \in {j \in Runnable(st) : st.tasks[j].kind = "W"}} :
-                   Step([Base("Restart") EXCEPT !.k = tk])
+             /\ \E T \in SUBSET {st.tasks[i].k : i \in {j \in Runnable(st) : st.tasks[j].kind = "W"}} :
+                   Step([Base("Restart") EXCEPT !.tks = T])
 
 Next == DoPut \/ DoRemove \/ DoRunTask \/ DoFailTask \/ DoHandleNote \/ DoGet \/ DoSetRange \/ DoCleanup \/ DoPayment
         \/ DoQuote \/ DoRestart
